@@ -34,7 +34,10 @@ theorem invA_tr {cfg : Config} {s s' : State} {e : Event} (hi : InvA s) (h : Tr 
       exact invA_acq_plain hi t n .wChk2 hl (.inl ⟨hc, rfl⟩) f3 f4 f2 f6
     · rename_i hc
       simp only at hc
-      exact invA_acq_plain hi t n .nLocked hl (.inr ⟨hc, rfl⟩) f3 f4 f2 f6
+      exact invA_acq_plain hi t n .nLocked hl (.inr (.inl ⟨hc, rfl⟩)) f3 f4 f2 f6
+    · rename_i hc
+      simp only at hc
+      exact invA_acq_plain hi t n .dWalk hl (.inr (.inr ⟨hc, rfl⟩)) f3 f4 f2 f6
     · rename_i hc
       simp only at hc
       refine invA_acq_sig hi t n _ _ _ _ (ite_sRel _) hl hc f3 f4 f2 f6 ?_ ?_
@@ -63,6 +66,7 @@ theorem invA_tr {cfg : Config} {s s' : State} {e : Event} (hi : InvA s) (h : Tr 
       · simp [h] at hbad
     exact invA_congr (invA_wCmpEq hi t r hl hr hst) rfl rfl rfl rfl rfl
   | relDeqW t new obs n hl hh hnew hn hsp => exact invA_relDeqW hi t new n hl hh hnew hn hsp
+  | relDbg t new obs n hl hh hnew hn hsp => exact invA_relDbg hi t new n hl hh hnew hn hsp
   | deqLdQueued t r obs hl hr hw hq => exact invA_deqLdQueued hi t r hl hr ((hi.qMem r).mp hq)
   | deqSpinExit t r hl hr hw => exact invA_deqSpinExit hi t r hl hr
   | wSt1 t r obs hl hm hst => exact invA_wSt1 hi t r hl hm hst
